@@ -709,6 +709,11 @@ fn c15_headers(a: &mut Acc) {
                             if !same {
                                 a.v(&format!("header:roundtrip-fields:v{}", version), format!("{}: fields differ after serialize + parse", case));
                             }
+                            // the source image uses deflate (compression type 0 or no such field): the written
+                            // header must say so too, whatever byte followed a 104-byte header
+                            if version == 3 && ser.len() > 104 && ser[104] != 0 {
+                                a.v("header:roundtrip-compression-type", format!("{}: re-serialised header has compression type {:#x}", case, ser[104]));
+                            }
                             if ext {
                                 // unknown extension 0x12345678 "hello" must survive
                                 let needle = [0x12u8, 0x34, 0x56, 0x78, 0, 0, 0, 5, b'h', b'e', b'l', b'l', b'o'];
